@@ -751,6 +751,12 @@ def bi_isinf(eng, st, pos, kw):
     return [("ok", st, VBool(xr_isinf(eng.to_real(pos[0]))))]
 
 
+def bi_isnan(eng, st, pos, kw):
+    """NaN is a distinguished marker value NaN_const (never produced by arithmetic in the supported subset)"""
+    r = eng.to_real(pos[0])
+    return [("ok", st, VBool(z3.And(r.k == 0, r.v == z3.Real("NaN_const"))))]
+
+
 def bi_abs(eng, st, pos, kw):
     v = pos[0]
     if isinstance(v, VInt):
@@ -886,7 +892,7 @@ BUILTINS = {
     "int": bi_int,
     "len": bi_len, "isinstance": bi_isinstance, "hasattr": bi_hasattr, "getattr": bi_getattr, "setattr": bi_setattr,
     "enumerate": bi_enumerate, "islice": bi_islice, "range": bi_range, "str": bi_str, "repr": bi_opaque,
-    "format": bi_opaque, "id": bi_opaque, "isinf": bi_isinf, "abs": bi_abs, "min": _minmax(True), "max": _minmax(False),
+    "format": bi_opaque, "id": bi_opaque, "isinf": bi_isinf, "isnan": bi_isnan, "abs": bi_abs, "min": _minmax(True), "max": _minmax(False),
     "float": bi_float, "bool": bi_bool, "partial": bi_partial, "list": bi_list, "set": bi_set, "dict": bi_dict,
     "tuple": bi_tuple, "slice": bi_slice, "any": bi_any_all(True), "all": bi_any_all(False), "type": bi_type,
     "super": bi_super, "frozenset": bi_set,
